@@ -21,6 +21,14 @@ ASSUMPTIONS = ['region loop: initial accumulators, one inductive step for an arb
                'step-level obligations of C02/C03 (not built yet for abort paths)']
 
 
+def _need(env, *names):
+    """the region-scan contract names the loop-carried accumulators of translate_address_p; a refactoring that renames them is
+    outside the contract's reach (undecided), not a violation"""
+    missing = [n for n in names if n not in env]
+    if missing:
+        raise sym.OutOfSubset('region loop of translate_address_p has no local(s) %s named by the loop contract' % missing)
+
+
 def spec_translate(st, va, ispriv, iswrite, wasaligned, n, acc=None, scan_unpred=False):
     """-> dict(outcome ('ok'|'BACKGROUND'|'PERMISSION' as conditions), attrs, perms, unpred)
     acc: result of the region scan (given: the tail is specified for an arbitrary scan result)"""
@@ -84,6 +92,7 @@ def translate_unit(n, mode='unrolled'):
             acc = {}
 
             def hook(e, stmt, env, g):
+                _need(env, 'region_found', 'texcb', 's', 'perms')
                 acc['found'] = e.fresh_bool('scan.region_found')
                 acc['texcb'] = e.fresh_int('scan.texcb', 5)
                 acc['s'] = e.fresh_int('scan.s', 1)
@@ -234,6 +243,7 @@ def loop_units(n):
         va = eng.fresh_int('va', 32)
 
         def hook(e, stmt, env, g):
+            _need(env, 'region_found', 'texcb', 's', 'perms')
             raise CutPoint(dict(found=env['region_found'], texcb=env['texcb'], s=env['s'], ap=env['perms'].attrs['ap'], xn=env['perms'].attrs['xn'],
                                 bound=e.ev(stmt.iter.args[0], env, g)), e)
         eng.loop_hooks = {(A.translate_address_p, 0): hook}
@@ -257,6 +267,7 @@ def loop_units(n):
         acc = {}
 
         def hook(e, stmt, env, g):
+            _need(env, 'region_found', 'texcb', 's', 'perms')
             acc['found'] = e.fresh_bool('scan.region_found')
             acc['texcb'] = e.fresh_int('scan.texcb', 5)
             acc['s'] = e.fresh_int('scan.s', 1)
